@@ -488,6 +488,12 @@ func (tree *ParserT) parseSubExpression(exec bool) (any, error) {
 		return nil, err
 	}
 	tree.charPos += branch.charPos - 1
+	if tree.charPos < start {
+		// the sub-expression ended before it began (eg a comment swallowed
+		// everything after the opening parenthesis)
+		tree.charPos = start
+		return nil, raiseError(tree.expression, nil, start, "sub-expression is not terminated")
+	}
 	if exec {
 		dt, err := branch.executeExpr()
 		if err != nil {
